@@ -14,10 +14,21 @@
   * `C11_extract_none_without_doc`: plain comments contribute no text;
   * `C11_extract_lines_append`: every doc comment of a block contributes its lines, in order;
   * `C11_keep_doxygen`: in the main loop a pending doc text survives only attribute-like items.
+  * `C11_get_doxygen_neutral`: `get_doxygen()` is neutral for the token sequence — after it,
+    `token_eof_ok` returns exactly what it would have returned before (same token or end of
+    input or lexical error, same stream state afterwards), for every stream state over the
+    regenerated rules: looking for documentation can never make the parser read different
+    tokens.
+  * `C11_doc_scans_preserve_tokens`: both scans leave the sequence of significant tokens the
+    stream will yield untouched: whatever tokens the parser would have read before
+    `get_doxygen()` / `get_doxygen_after()`, it reads the same ones afterwards.
   Attachment per declaration kind: correspondence `parse[doxygen]` + oracle (named; not proof).
 -/
 import CxxModel.TokStream
 import CxxModel.Tables
+import CxxModel.GenCfg
+import CxxModel.Theorems.DoxNeutral
+import CxxModel.Theorems.SigEq
 namespace Cxx
 
 /-- comment tokens of a list that come after its last NEWLINE token -/
@@ -139,5 +150,18 @@ theorem C11_extract_lines_append (mcRe : Re) (a b : List Tok) :
   List.flatMap_append
 
 theorem C11_keep_doxygen : Gen.keepDoxygen = ["DBL_LBRACKET", "__attribute__", "__declspec", "alignas"] := keep_doxygen_eq
+
+
+theorem C11_get_doxygen_neutral (mcRe : Re) (b b1 : Buf) (d : Option String)
+    (h : getDoxygen genLexCfg mcRe b = .ok (d, b1)) : tokenEofOk genLexCfg b1 = tokenEofOk genLexCfg b :=
+  getDoxygen_next genLexCfg gen_rules_progress mcRe b b1 d h
+
+
+theorem C11_doc_scans_preserve_tokens (mcRe : Re) (b : Buf) (t : Tok) (ts : List Tok) (b' : Buf)
+    (hy : Yields genLexCfg b (t :: ts) b') :
+    (∀ d b1, getDoxygen genLexCfg mcRe b = .ok (d, b1) → Yields genLexCfg b1 (t :: ts) b') ∧
+    (∃ b1', Yields genLexCfg (getDoxygenAfter mcRe b).2 (t :: ts) b1' ∧ SigEq b' b1') := by
+  refine ⟨fun d b1 hd => Yields.after_getDoxygen gen_rules_progress hd hy, ?_⟩
+  exact Yields.sigEq hy (getDoxygenAfter_sigEq mcRe b).symm
 
 end Cxx
